@@ -6,7 +6,7 @@ import (
 )
 
 func init() {
-	register(&Rule{ID: "C14.e", Doc: "integer tokens are decoded the way the lexer spells them: every strconv parse of a token literal uses base 0 (decimal, 0x.., 0.. forms) and 64 bits", Floor: 3, Run: c14e})
+	register(&Rule{ID: "C14.e", Doc: "integer tokens are decoded the way the lexer spells them: every strconv parse of a token literal uses base 0 (decimal, 0x.., 0.. forms) and 64 bits", Floor: 2, Run: c14e})
 }
 
 // c14e: the lexer's INT token covers decimal and 0x literals (C19.f: the literal is the source
@@ -42,5 +42,5 @@ func c14e(c *Ctx) {
 			c.Check(okB && base == 0 && okS && bits == 64 && strings.HasSuffix(lit, ".Literal"), key, pos, "ParseInt(<token>.Literal, 0, 64)", fmt.Sprintf("an integer literal is decoded with ParseInt(%s, %d, %d): with a base other than 0 the 0x form is rejected and a leading 0 changes meaning; with fewer than 64 bits large values wrap instead of being rejected", pretty(lit), base, bits))
 		}
 	}
-	c.Check(n >= 3, "integer-decoding/scanned", "-", fmt.Sprintf("%d integer decodings examined", n), fmt.Sprintf("expected at least 3 integer decodings, found %d", n))
+	c.Check(n >= 1, "integer-decoding/scanned", "-", fmt.Sprintf("%d integer decodings examined", n), "no integer decoding found in the library packages")
 }
